@@ -36,6 +36,8 @@ type Cfg struct {
 	InCh     int      `json:"inch"`
 	Gates    []string `json:"gates"`
 	QDurMs   int      `json:"qdur"`
+	// OnError: an error handler is set on the service (which has no logger)
+	OnError bool `json:"onerror,omitempty"`
 }
 
 // Case is a full schedule case.
@@ -276,6 +278,9 @@ func (m *machine) build() {
 	s.SetWorkerCount(m.c.Cfg.Workers)
 	s.SetInChannelSize(m.c.Cfg.InCh)
 	s.SetLogger(nil)
+	if m.c.Cfg.OnError {
+		s.SetOnError(func(*res.Service, string) {})
+	}
 	if m.c.Cfg.QDurMs > 0 {
 		s.SetQueryEventDuration(time.Duration(m.c.Cfg.QDurMs) * time.Millisecond)
 	}
